@@ -437,6 +437,7 @@ func judgeC02(rep *lib.Report, c *lib.Ctx, ln *printerLine, kase json.RawMessage
 		return // pointer values are public but differ from one allocation to the next
 	}
 	pub := lib.Publicity(ln.C.Ts)
+	lib.MarkStarOperandsPublic(pub, c.Subst(ln.C.F), ln.C.Ts)
 	var outs [2][]byte
 	base := 0
 	for w := 0; w < 2; w++ {
